@@ -323,6 +323,10 @@ class Harness:
             o["cs"] = cs
             self.handed[i] = xs
             fn = lambda: b.add_platforms(xs, cs if cs else None)  # noqa: E731
+        elif op == "bulk_remove":
+            ks = lab["ks"]
+            o["ks"] = ks
+            fn = lambda: b.remove_platforms(list(ks))  # noqa: E731
         elif op == "lookup":
             what, key = lab["what"], lab["key"]
             o.update(what=what, key=key)
@@ -463,6 +467,8 @@ def parse_label(lab):
     if name == "BulkAdd":
         m2 = re.match(r"<<(.*?)>>,<<(.*?)>>$", rest, re.S)
         return dict(op="bulk_add", i=i, labels=_ints(m2.group(1)), cs=_ints(m2.group(2)))
+    if name == "BulkRemove":
+        return dict(op="bulk_remove", i=i, ks=_ints(rest))
     if name == "Lookup":
         m2 = re.match(r'"(\w+)",(-?\d+)$', rest.strip())
         return dict(op="lookup", i=i, what=m2.group(1), key=int(m2.group(2)))
